@@ -921,3 +921,38 @@ let () =
       finals := wsink_data !cur :: !finals;
       String.concat "," parts ^ " " ^ String.concat "," (List.rev_map hex_of_bytes !finals)
     | _ -> "badargs")
+
+(* bzimpl <nstreams> { <hexdata|-> <buffered 0/1> <fills|-> <reads|-> <sizes|-> } ... :
+   the implementation-level model of bzip2.Reader (Bzip2/Impl.v) over scripted sources; one
+   Reader, Reset between the streams; one observation per Read call:
+   bytes:errclass:InputOffset:OutputOffset:sourcePos *)
+let () =
+  let fmt_bytes (l : n list) : string =
+    let len = List.length l in
+    if len = 0 then "-"
+    else if len <= 48 then hex_of_bytes l
+    else begin
+      let h = ref 0 in
+      List.iter (fun x -> h := (!h * 1000003 + int_of_n x + 1) land (1 lsl 40 - 1)) l;
+      Printf.sprintf "H%d.%d" len !h end in
+  let fmt_obs (o : bzobs) : string =
+    match o.bo_err with
+    | Some EPanic -> "Panic"
+    | Some EFuel -> "Fuel"
+    | e -> Printf.sprintf "%s:%s:%s:%s:%d" (fmt_bytes o.bo_bytes) (oerr_name e)
+             (z_to_string o.bo_inOff) (z_to_string o.bo_outOff) (int_of_nat o.bo_srcPos) in
+  register "bzimpl" (fun args -> match args with
+    | _ :: rest ->
+      let nat_tr i = let rec go i acc = if i <= 0 then acc else go (i - 1) (S acc) in go i O in
+      let ints s = if s = "-" then [] else List.rev (List.rev_map (fun x -> nat_tr (int_of_string x)) (String.split_on_char ',' s)) in
+      let rec go st rest acc = match rest with
+        | hex :: bf :: fills :: reads :: sched :: more ->
+          let data = bytes_of_hex hex in
+          let s0 = (match st with
+            | None -> bz_new data (bf = "1") (ints fills) (ints reads)
+            | Some s -> bz_reset s data (bf = "1") (ints fills) (ints reads)) in
+          let (obs, fin) = bz_run s0 (ints sched) in
+          go (Some fin) more (String.concat "," (List.rev (List.rev_map fmt_obs obs)) :: acc)
+        | _ -> List.rev acc in
+      String.concat "|" (go None rest [])
+    | _ -> "badargs")
